@@ -934,6 +934,9 @@ class Printer:
             ref = '(*%s)' % name if self.decl_ref[v['id']] else name
             if init:
                 c = self.skip(init[0])
+                # `const std::vector<T> v = f(...)`: the prvalue is wrapped in a NoOp cast to const
+                while c.get('kind') == 'ImplicitCastExpr' and c.get('castKind') == 'NoOp' and c.get('inner'):
+                    c = self.skip(c['inner'][0])
                 if c.get('kind') == 'CXXConstructExpr':
                     cargs = [a for a in c.get('inner', []) if a.get('kind') != 'CXXDefaultArgExpr']
                     if len(cargs) == 0:
@@ -1775,7 +1778,11 @@ class Printer:
         if rng is None or lv is None:
             self.brk('range-for shape', n)
         rexpr = self.skip(rng['inner'][0])
-        if not self.is_vec_expr(rexpr):
+        try:
+            rct0 = self.ctype_of(rexpr)
+        except ExtractionBreak:
+            rct0 = None
+        if rct0 in self.unit.get('cellset_types', []) or not self.is_vec_expr(rexpr):
             try:
                 rct = self.ctype_of(rexpr)
             except ExtractionBreak:
